@@ -243,7 +243,8 @@ RxEncResponse ==
                  \E v \in AuthVerdicts :
                    End("Err", IF v = "err" THEN "AdapterError" ELSE "CryptographyFailed", <<rx, AuthCall(v)>>)
             [] cl = "badSecretLen" /\ ~c.shouldAuth -> End("Err", "CryptographyFailed", <<rx>>)
-            [] cl \in {"wrongToken","staleToken"} -> End("Err", "InvalidVerifyToken", <<rx>>)
+            \* a token that is not exactly the one issued on this connection: altered, from another connection, empty, or only a prefix of it
+            [] cl \in {"wrongToken","staleToken","emptyToken","prefixToken"} -> End("Err", "InvalidVerifyToken", <<rx>>)
             [] OTHER -> End("Err", "CryptographyFailed", <<rx>>)   \* otherKey, garbage
      \/ Deviate
 
